@@ -551,3 +551,76 @@ pub fn gen_malformed(rng: &mut Rng) -> Vec<u8> {
     };
     b
 }
+
+// ---------------------------------------------------------------------------------------------
+// long lines with multi-byte characters (C14: a malformed record is an error VALUE, whatever the
+// line looks like). One long record between `file:main.c / lcount:1,1` and `lcount:2,5`; the long
+// token is made of 2-, 3-, 4-byte characters or of invalid bytes (each becomes the 3-byte U+FFFD
+// when the line is decoded), slid by 0..3 ASCII bytes so that every byte offset of the decoded
+// line - 255, 256, 257 in particular - falls at every position inside a character; line lengths
+// from ~200 to ~600 bytes. The record is well formed (three kinds) or malformed in the ordinary
+// ways (no ':', missing field, non-number, 20-digit start line).
+
+pub struct LongLine {
+    pub label: String,
+    pub bytes: Vec<u8>,
+    /// what the file says: `ok …` exactly, or the error kind of the malformed record
+    pub expected: String,
+    pub well_formed: bool,
+}
+
+pub fn long_line_cases() -> Vec<LongLine> {
+    let units: &[(&str, &[u8])] = &[
+        ("2byte", "é".as_bytes()),
+        ("3byte", "語".as_bytes()),
+        ("4byte", "𝛼".as_bytes()),
+        ("invalid_ff", b"\xff"),
+        ("latin1", b"caf\xe9"),
+        ("mixed", "aé語𝛼\u{7f}".as_bytes()),
+        ("truncated_seq", b"x\xe2\x82"),
+    ];
+    let mut out = vec![];
+    for (uname, unit) in units {
+        for target in [200usize, 256, 300, 600] {
+            for shift in 0..4usize {
+                let mut name: Vec<u8> = vec![b'a'; shift];
+                while name.len() < target {
+                    name.extend_from_slice(unit);
+                }
+                let dec = decode_name(&name);
+                let hexname = hex(dec.as_bytes());
+                let n = |pre: &str| -> Vec<u8> {
+                    let mut l = pre.as_bytes().to_vec();
+                    l.extend_from_slice(&name);
+                    l
+                };
+                let kinds: Vec<(&str, Vec<u8>, String, bool)> = vec![
+                    ("wf.function", n("function:3,1,"), format!("ok K6d61696e2e63=L1:1,2:5;B;F{}:3:1", hexname), true),
+                    ("wf.other_key", n("version:"), "ok K6d61696e2e63=L1:1,2:5;B;F".to_string(), true),
+                    ("wf.file", n("file:"), format!("ok K6d61696e2e63=L1:1;B;F K{}=L2:5;B;F", hexname), true),
+                    ("bad.start_not_a_number", n("function:x3,1,"), "err Parse".to_string(), false),
+                    ("bad.start_20_digits", n("function:99999999999999999999,1,"), "err Parse".to_string(), false),
+                    ("bad.function_missing_name", n("function:3,"), "err InvalidRecord".to_string(), false),
+                    ("bad.function_one_field", n("function:"), "err Parse".to_string(), false),
+                    ("bad.lcount_count_not_a_number", n("lcount:3,"), "err Parse".to_string(), false),
+                    ("bad.lcount_20_digit_count", n("lcount:3,99999999999999999999"), "err Parse".to_string(), false),
+                    ("bad.lcount_one_field", n("lcount:"), "err Parse".to_string(), false),
+                    ("bad.branch_line_not_a_number", { let mut l = n("branch:"); l.extend_from_slice(b",taken"); l }, "err Parse".to_string(), false),
+                    ("bad.no_colon", name.clone(), "err InvalidRecord".to_string(), false),
+                ];
+                for (kind, line, expected, wf) in kinds {
+                    let mut bytes = b"file:main.c\nlcount:1,1\n".to_vec();
+                    bytes.extend_from_slice(&line);
+                    bytes.extend_from_slice(b"\nlcount:2,5\n");
+                    out.push(LongLine {
+                        label: format!("{}.{}.len{}.shift{}", kind, uname, target, shift),
+                        bytes,
+                        expected,
+                        well_formed: wf,
+                    });
+                }
+            }
+        }
+    }
+    out
+}
